@@ -2124,8 +2124,8 @@ func TestVerifC09(t *testing.T) {
 		"the config object of a manifest counts as a layer for push, as Registry.Pull itself treats it for pull",
 	})
 	enum := c09EnumList(cfg.Tier)
-	nRandom := cfg.N(1500, 160000)
-	nPush := cfg.N(400, 30000)
+	nRandom := cfg.N(1500, 100000)
+	nPush := cfg.N(400, 20000)
 	total := len(enum) + nRandom + nPush
 	rep.Set("enumerated_subspaces", map[string]any{"one chunked layer, k=2..4 chunks: every completion order x every failing chunk x fault kinds, and every completion order x every cancellation step; then a clean retry": len(enum)})
 	replayIdx := -1
